@@ -277,10 +277,27 @@ def gen_positions(rng, d, H, N, kind):
             pts.append(p)
     elif kind == "lattice":
         pts = [[16 * rng.below(1 << L) + 8 for _ in range(d)] for _ in range(N)]
+    elif kind == "gaps":
+        # runs of consecutive leaves along the Morton curve separated by gaps that leave whole parents (and grand-parents) empty:
+        # group boundaries then cut a parent's children while the next parent(s) do not exist
+        nl = 1 << (d * L); ch = 1 << d
+        idx = rng.below(ch); leaves = []
+        while idx < nl and len(leaves) < max(N, 1):
+            run = rng.range(1, ch + 2)
+            for _ in range(run):
+                if idx < nl and len(leaves) < max(N, 1): leaves.append(idx)
+                idx += 1
+            g = rng.below(5)
+            if g == 1: idx = (idx // ch + 2) * ch + rng.below(ch)               # the next parent is empty
+            elif g == 2: idx = (idx // ch + 1 + rng.range(1, 3)) * ch            # one to three empty parents, resume on a parent boundary
+            elif g == 3: idx = (idx // (ch * ch) + 2) * ch * ch + rng.below(ch)  # an empty grand-parent
+            elif g == 4: idx += rng.range(1, ch)
+        if not leaves: leaves = [rng.below(nl)]
+        pts = [[16 * x + rng.below(16) for x in O.unbox(i, d)] for i in leaves]
     return pts
 
 
-KINDS = ["uniform", "cluster", "corner", "single", "faces", "lattice"]
+KINDS = ["uniform", "cluster", "corner", "single", "faces", "lattice", "gaps"]
 
 
 def gen_exhaustive(tier):
@@ -308,13 +325,42 @@ def gen_exhaustive(tier):
 DEEP_L = {1: 30, 2: 29, 3: 18, 4: 11}
 
 
-def gen_random(rng, n, maxN, dims=(1, 2, 3, 4), Hmax=None, deep=True):
+def gen_cutgap(rng):
+    """directed shape: a block size B > 16 that is not a multiple of 2^d, a first run of leaves that fills whole parents and is cut
+    by the first group boundary inside a parent, then at least one completely empty parent, then a second run longer than B:
+    the second cell group starts with the tail of a parent already present in the first parent group, the next parent does not
+    exist, and parents beyond it do (the situation of one-group-per-parent upper levels on sparse trees)"""
+    d = rng.choice([1, 2, 2, 3, 3])
+    ch = 1 << d
+    H = {1: rng.range(7, 9), 2: rng.range(4, 6), 3: rng.range(4, 5)}[d]
+    nl = 1 << (d * (H - 1))
+    while True:
+        B = rng.range(17, 33)
+        if B % ch: break
+    start = rng.below(3) * ch
+    run1 = ((B + ch - 1) // ch) * ch + rng.below(2) * ch
+    gap = rng.range(1, 4) * ch
+    run2 = B + rng.range(1, 2 * ch)
+    leaves = list(range(start, start + run1)) + list(range(start + run1 + gap, min(nl, start + run1 + gap + run2)))
+    if rng.below(3) == 0:      # a few holes in the second run (not in its first parent)
+        leaves = [x for x in leaves if x < start + run1 + gap + ch or rng.below(6) != 0]
+    nums = [[16 * x + rng.below(16) for x in O.unbox(i, d)] for i in leaves]
+    rng.shuffle(nums)
+    return TreeCase(d, rng.below(2) if d <= 3 else 0, H, B, 1 if rng.below(4) else 0, nums)
+
+
+def gen_random(rng, n, maxN, dims=(1, 2, 3, 4), Hmax=None, deep=True, kinds=None):
     Hmax = Hmax or {1: 7, 2: 6, 3: 5, 4: 4}
-    for _ in range(n):
+    for k in range(n):
+        if kinds is None and k % 16 == 15:
+            tc = gen_cutgap(rng)
+            if tc.d in dims and tc.H <= max(Hmax[tc.d], 5) + 3:
+                yield tc
+                continue
         d = rng.choice(dims)
         H = rng.range(1 if rng.below(10) == 0 else 2, Hmax[d])
         N = rng.choice([1, 2, 3, rng.range(4, 30), rng.range(30, maxN)])
-        kind = rng.choice(KINDS)
+        kind = rng.choice(kinds or KINDS)
         if deep and rng.below(9) == 0:
             # deep, sparse tree: few particles, many levels (Dim * level beyond 31 bits)
             H = rng.range(Hmax[d] + 1, DEEP_L[d] + 1)
@@ -323,6 +369,7 @@ def gen_random(rng, n, maxN, dims=(1, 2, 3, 4), Hmax=None, deep=True):
         nums = gen_positions(rng, d, H, N, kind)
         nleaves = len(set(tuple(min(x // 16, (1 << (H - 1)) - 1) for x in p) for p in nums))
         B = rng.choice([1, 2, 3, 5, 8, max(1, nleaves // 2), nleaves, nleaves + 1, 1000, 10000000])
+        if kind == "gaps" and nleaves > 20 and rng.below(3) != 0: B = rng.range(9, min(40, nleaves - 1))     # groups of more than 16 cells that are not alone
         yield TreeCase(d, rng.below(2), H, B, rng.below(2), nums)
 
 
